@@ -352,6 +352,79 @@ def issue(config, schema, text, root, **kw):
         loop.close()
 
 
+def rename_enum_value_in_place(ctx, rng, case, ir_now, root, issue, raises_key):
+    import copy
+
+    from py_gql.schema import EnumValue, SchemaVisitor
+    from py_gql.utilities import introspection_query
+
+    enums = [t for t in ir_now.types.values() if t.kind == "enum" and t.values]
+    if not enums:
+        return
+    e = rng.choice(enums)
+    old = rng.choice(e.values).name
+    new = old + "_RENAMED"
+
+    class Rename(SchemaVisitor):
+        def on_enum_value(self, enum_value):
+            if enum_value.name == old:
+                return EnumValue(new, value=enum_value.value, description=enum_value.description,
+                                 deprecation_reason=enum_value.deprecation_reason)
+            return enum_value
+
+    def ren(v):
+        if isinstance(v, S.EnumLit):
+            return S.EnumLit(new) if v.name == old else v
+        if isinstance(v, list):
+            return [ren(x) for x in v]
+        if isinstance(v, dict):
+            return type(v)((k, ren(x)) for k, x in v.items())
+        return v
+
+    ir3 = copy.deepcopy(ir_now)
+    used = [0]
+
+    def fix(inputs):
+        for a in inputs:
+            if a.has_default:
+                nv = ren(a.default)
+                if nv != a.default:
+                    used[0] += 1
+                a.default = nv
+
+    for t in ir3.types.values():
+        if t.kind == "enum":
+            for v in t.values:
+                if v.name == old:
+                    v.name = new
+        for f in t.fields:
+            fix(f.args)
+        fix(t.input_fields)
+    for d in ir3.directives.values():
+        fix(d.args)
+    witness = {"schema_sdl": case.sdl, "enum_value_renamed_in_place": [old, new], "query": "introspection_query()"}
+    ctx.evaluated()
+    try:
+        Rename().on_schema(case.schema)
+        case.schema.validate()
+    except Exception as exc:
+        ctx.count("in_place_rename_refused:%s" % type(exc).__name__)
+        return
+    ctx.count("in_place_enum_value_renames")
+    if used[0]:
+        ctx.count("in_place_enum_value_renames_reaching_a_default")
+    try:
+        res = issue("blocking", case.schema, introspection_query(), root)
+    except Exception as exc:
+        k = raises_key(exc)
+        ctx.violation(k if "VARIABLE_DEFINITION" in k else "after-in-place-rename:" + k, witness, repr(exc)[:300])
+        return
+    if res.errors or not isinstance(res.data, dict):
+        ctx.violation("after-in-place-rename:introspection-errors", witness, repr([str(x) for x in res.errors])[:300])
+        return
+    check_schema_answer(ctx, ir3, res.data, witness)
+
+
 def run(ctx):
     from py_gql.utilities import introspection_query
 
@@ -476,6 +549,7 @@ def run(ctx):
                              for m in ir.possible_types(t.name)) - set(n for _k, n in ir.roots()))
         # ... or a whole root operation type other than the query root is hidden
         members = members + sorted(set(n for k, n in ir.roots() if k != "query" and n != ir.query))
+        current_ir = None if members else ir
         if members:
             from py_gql.schema.transforms import VisibilitySchemaTransform
             from .c14 import apply_visibility
@@ -509,7 +583,14 @@ def run(ctx):
                     else:
                         n0 = len(ctx.violations)
                         check_schema_answer(ctx, ir2, res.data, witness)
+                        current_ir = ir2
+        # ... and then an enum value is renamed in place (its python value stays, so every declared default stays what
+        # it was): defaults that use it have to be reported under the new name, by the schema object that has
+        # already answered under the old one
+        if current_ir is not None:
+            rename_enum_value_in_place(ctx, rng, case, current_ir, root, issue, raises_key)
         ctx.sample("schema", {"sdl": case.sdl[:400]})
     ctx.require("types_compared", 100)
     ctx.require("defaults_checked", 50)
     ctx.require("disabled_queries", 10)
+    ctx.require("in_place_enum_value_renames_reaching_a_default", 3)
